@@ -765,7 +765,8 @@ variableLoop:
 			if p.Match(TokenSymbol, "]") == nil {
 				return nil, p.Error("Missing closing bracket after subscript argument.", nil)
 			}
-
+			// We're done parsing the subscript, next variable part
+			continue variableLoop
 		} else if p.Match(TokenSymbol, "(") != nil {
 			// Function call
 			// FunctionName '(' Comma-separated list of expressions ')'
